@@ -341,6 +341,67 @@ theorem sel_all_is_mean (truest : Bool) (asc : List Rat) :
   unfold selCell
   cases truest <;> simp [sumL, List.sum_eq_foldl]
 
+theorem sortRat_sorted (l : List Rat) : (sortRat l).Pairwise (· ≤ ·) := by
+  unfold sortRat
+  exact (List.pairwise_mergeSort (le := fun x y => decide (x ≤ y))
+    (by intro a b c; simp; intro h1 h2; exact le_trans h1 h2) (by intro a b; simp; exact le_total a b) l).imp (by simp)
+
+theorem sortRat_mem {l : List Rat} {x : Rat} : x ∈ sortRat l ↔ x ∈ l := by
+  unfold sortRat; exact (List.mergeSort_perm l _).mem_iff
+
+theorem pairwise_le_getLast (l : List Rat) (h : l ≠ []) (hs : l.Pairwise (· ≤ ·)) : ∀ x ∈ l, x ≤ l.getLast h := by
+  induction l with
+  | nil => exact absurd rfl h
+  | cons a t ih =>
+    intro x hx
+    cases t with
+    | nil => simp at hx; subst hx; simp
+    | cons b t' =>
+      have hp := List.pairwise_cons.mp hs
+      rw [List.getLast_cons (by simp)]
+      rcases List.mem_cons.mp hx with rfl | hx
+      · exact le_trans (hp.1 b (List.mem_cons_self ..)) (ih (by simp) hp.2 b (List.mem_cons_self ..))
+      · exact ih (by simp) hp.2 x hx
+
+/-- **k = 1, truest**: the selected union of the single truest value of a column is its greatest value - what `FuzzyOr` computes (`or_cell`) -/
+theorem sel_truest_one (l : List Rat) (hne : l ≠ []) :
+    (selCell true 1 (sortRat l)).val ∈ l ∧ ∀ x ∈ l, x ≤ (selCell true 1 (sortRat l)).val := by
+  have hs : sortRat l ≠ [] := by
+    intro e
+    have := (List.mergeSort_perm l (fun a b => decide (a ≤ b))).length_eq
+    unfold sortRat at e
+    rw [e] at this
+    exact hne (List.length_eq_zero_iff.mp this.symm)
+  have hv : (selCell true 1 (sortRat l)).val = (sortRat l).getLast hs := by
+    unfold selCell
+    simp only [if_true, List.drop_length_sub_one hs, sumL, List.foldl_cons, List.foldl_nil, List.length_singleton]
+    simp
+  rw [hv]
+  exact ⟨sortRat_mem.mp (List.getLast_mem hs), fun x hx => pairwise_le_getLast _ hs (sortRat_sorted l) x (sortRat_mem.mpr hx)⟩
+
+/-- **k = 1, falsest**: the selected union of the single falsest value of a column is its least value - what `FuzzyAnd` computes (`and_cell`) -/
+theorem sel_falsest_one (l : List Rat) (hne : l ≠ []) :
+    (selCell false 1 (sortRat l)).val ∈ l ∧ ∀ x ∈ l, (selCell false 1 (sortRat l)).val ≤ x := by
+  have hs : sortRat l ≠ [] := by
+    intro e
+    have := (List.mergeSort_perm l (fun a b => decide (a ≤ b))).length_eq
+    unfold sortRat at e
+    rw [e] at this
+    exact hne (List.length_eq_zero_iff.mp this.symm)
+  obtain ⟨a, t, hat⟩ := List.exists_cons_of_ne_nil hs
+  have hv : (selCell false 1 (sortRat l)).val = a := by
+    unfold selCell
+    rw [hat]
+    simp [sumL]
+  rw [hv]
+  have hsorted := sortRat_sorted l
+  rw [hat] at hsorted
+  refine ⟨sortRat_mem.mp (by rw [hat]; exact List.mem_cons_self ..), fun x hx => ?_⟩
+  have hx' : x ∈ a :: t := by rw [← hat]; exact sortRat_mem.mpr hx
+  rcases List.mem_cons.mp hx' with rfl | hx'
+  · exact le_refl _
+  · exact (List.pairwise_cons.mp hsorted).1 x hx'
+
 /-! ### every input order gives the same outcome -/
 
 theorem or_perm (sqrt : Rat → Rat) {xs xs' : List Arr} (h : xs.Perm xs') (n : Nat) (hn : ∀ x ∈ xs, x.cells.length = n) :
